@@ -120,3 +120,11 @@ Theorem bitv_count_algebra : forall c a b, wfc c ->
   (bitvCount c (bitvNot c a) + bitvCount c a = nbits c)%nat.
 Proof. exact count_algebra. Qed.
 Print Assumptions bitv_count_algebra.
+
+(* vectors that bitvEqual accepts cannot be told apart by test, count, count-to or the printers *)
+Theorem bitv_equal_observational : forall c a b, wfc c -> wfv c a -> wfv c b -> bitvEqual c a b = true ->
+  (bitvCount c a = bitvCount c b)%nat /\ (bitvToString c a = bitvToString c b :> list pch) /\
+  (forall n, (n <= nbits c)%nat -> bitvCountTo c a n = bitvCountTo c b n) /\
+  (forall i, (i < nbits c)%nat -> bitvTest c a i = bitvTest c b i).
+Proof. exact equal_observational. Qed.
+Print Assumptions bitv_equal_observational.
